@@ -4,7 +4,16 @@ use rand::{rngs::StdRng, Rng, SeedableRng};
 use serde_json::json;
 use std::io::Write;
 
+/// a panic of the code under test is data: the row says so and the check reports it
+fn guarded(what: &str, n: u32, a: u32, b: u32, f: impl FnOnce() -> serde_json::Value) -> serde_json::Value {
+    std::panic::catch_unwind(std::panic::AssertUnwindSafe(f)).unwrap_or_else(|_| json!({"k": "panic", "what": what, "n": n, "a": a, "b": b}))
+}
+
 fn node_row(n: u32, x: u32) -> serde_json::Value {
+    guarded("node", n, x, 0, || node_row_inner(n, x))
+}
+
+fn node_row_inner(n: u32, x: u32) -> serde_json::Value {
     let in_tree = tm::is_in_tree(x, n);
     let dcp = tm::direct_copath(x, n);
     if !in_tree {
@@ -24,21 +33,26 @@ fn node_row(n: u32, x: u32) -> serde_json::Value {
 }
 
 fn pair_row(n: u32, a: u32, b: u32) -> serde_json::Value {
+    guarded("pair", n, a, b, || pair_row_inner(n, a, b))
+}
+
+fn pair_row_inner(n: u32, a: u32, b: u32) -> serde_json::Value {
     json!({"k":"pair","n":n,"a":a,"b":b,
         "lvlLeaf": tm::leaf_lca_level(a, b),
         "lvlNode": tm::leaf_lca_level(2*a, 2*b)})
 }
 
-pub struct Stats { pub rows: u64, pub node_rows: u64, pub pair_rows: u64, pub bfs_rows: u64, pub bound_rows: u64, pub samples: Vec<serde_json::Value> }
+pub struct Stats { pub panics: Vec<serde_json::Value>, pub rows: u64, pub node_rows: u64, pub pair_rows: u64, pub bfs_rows: u64, pub bound_rows: u64, pub samples: Vec<serde_json::Value> }
 
 /// max_log: exhaustive node rows for n = 2^0..2^max_log; pair_log: all leaf pairs up to 2^pair_log;
 /// samples: number of sampled (n, x) and pairs for sizes up to 2^24.
 pub fn dump(out: &str, max_log: u32, pair_log: u32, samples: u32, seed: u64) -> std::io::Result<Stats> {
     let mut f = std::io::BufWriter::new(std::fs::File::create(out)?);
-    let mut st = Stats { rows: 0, node_rows: 0, pair_rows: 0, bfs_rows: 0, bound_rows: 0, samples: vec![] };
+    let mut st = Stats { panics: vec![], rows: 0, node_rows: 0, pair_rows: 0, bfs_rows: 0, bound_rows: 0, samples: vec![] };
     let mut rng = StdRng::seed_from_u64(seed);
     let mut emit = |v: serde_json::Value, st: &mut Stats| -> std::io::Result<()> {
         if st.samples.len() < 6 && (st.rows % 997 == 3 || st.rows < 2) { st.samples.push(v.clone()); }
+        if v["k"] == "panic" && st.panics.len() < 20 { st.panics.push(v.clone()); }
         st.rows += 1;
         writeln!(f, "{}", v)
     };
